@@ -210,7 +210,8 @@ macro_rules! combo {
           }
         }
         // --- JSON
-        for fold in [None, Some(30usize)] {
+        // (narrow folds: a line break may fall before the very first cell of an order)
+        for fold in [None, Some(30usize), Some(16), Some(10)] {
           let mut t4 = Vec::new();
           (&m).into_range_moc_iter().cells().to_json_aladin(fold, &mut t4).unwrap();
           let t4 = String::from_utf8(t4).unwrap();
@@ -739,8 +740,10 @@ fn probe_child(dir: &std::path::Path, name: &str, b: &[u8], reader: &str) -> (&'
   let (code, err) = match out { Ok(o) => (o.status.code().unwrap_or(-1), String::from_utf8_lossy(&o.stderr).to_string()), Err(_) => (0, String::new()) };
   (match code { 0 => "answered", 3 => "panic", _ => "aborted" }, err.lines().next().unwrap_or("").to_string())
 }
-const CARD_VALUES: [&str; 22] = [
+const CARD_VALUES: [&str; 29] = [
   "0", "1", "2", "3", "4", "7", "8", "15", "16", "29", "30", "31", "32", "61", "62", "63", "64", "255", "256", "100000", "-1", "",
+  // powers of two around the largest NSIDE (2^29) and the bounds of the integer types a card value is parsed into
+  "536870912", "1073741824", "2147483648", "4294967295", "4294967296", "9223372036854775807", "18446744073709551615",
 ];
 const CARD_STRS: [&str; 8] = ["'1I      '", "'1J      '", "'1K      '", "'K       '", "'NUNIQ   '", "'RANGE   '", "'X'", "'"];
 
